@@ -38,6 +38,10 @@ def core_schema():
     # algo stacks / flow control (ghost: g_calls, g_stamp, g_clock record invocations of opaque algos)
     s.declare(algos="list", _list_of_algos="list", check_run_always="bool", run_always="bool", has_run_always="bool",
               g_calls="int", g_stamp="int", g_clock="int", g_runs="int", perm_ver="int", _algo="ref:Algo", stack="ref:AlgoStack")
+    # selection / weighting algos
+    s.declare(include_no_data="bool", include_negative="bool", tickers="labels", lookback="int", lag="int", min_count="int",
+              signal="auxframe", stat="auxframe", weights="auxframe", regex="opaque", ascending="bool", all_or_none="bool", filter_selected="bool", sel_n="float",
+              stat_name="optstr", signal_name="optstr", weights_name="optstr")
     # Backtest
     s.declare(strategy="ref:StrategyBase", additional_data="opaque", initial_capital="float", progress_bar="bool", stats="opaque", _original_prices="opaque",
               _original_data="opaque", _setup_kwargs="opaque")
